@@ -127,10 +127,17 @@ def run(ctx):
     runs = [[h, "-cases", f, "c06"] for f in corpus]
     if not ctx.replay:
         runs.append([h, "-seed", str(ctx.seed), "-n", str(n), "c06"])
+    if os.environ.get("VERIF_SELFTEST_SLOW"):   # self-test of the timeout handling: shrink the first run's deadlines
+        runs = [r[:1] + ["-slow", os.environ["VERIF_SELFTEST_SLOW"]] + r[1:] for r in runs]
     calib = None
     for cmd in runs:
-        rc, out = vf.sh(cmd, timeout=1500, env=vf.GOENV)
-        got = [json.loads(l) for l in out.splitlines() if l.startswith("{")]
+        for slow in (None, 4, 16):     # the harness's own default exchange may time out on a loaded machine: longer deadlines
+            c2 = cmd if slow is None else cmd[:-1] + ["-slow", str(slow), "-par", "4"] + cmd[-1:]
+            rc, out = vf.sh(c2, timeout=3000, env=vf.GOENV)
+            got = [json.loads(l) for l in out.splitlines() if l.startswith("{")]
+            if rc == 0 and got and not any("setup_error" in g and "client" not in g for g in got):
+                break
+            ctx.log("harness run failed (rc=%d), retrying with longer deadlines" % rc)
         if rc != 0 or not got or any("setup_error" in g and "client" not in g for g in got):
             # the calibration exchange (default client against default server, small messages) failed: a conforming
             # message was not delivered -- report it with what the harness said
@@ -144,22 +151,66 @@ def run(ctx):
         o["c2s"] = o.get("c2s") or []
         o["s2c"] = o.get("s2c") or []
 
-    fails = []
-    for o in obs:
-        for key, what in oracle(o):
-            fails.append((key, what, o))
+    # ---- evaluation: (1) oracle = the property's statement on the wire, (2) correspondence inside Coq.
+    # A harness-side timeout (request timeout, dial/accept deadline) is never an observation of the code under
+    # test: a failing case that shows one is re-run alone with longer deadlines (same inputs), up to 3 times; if it
+    # still times out it is INCONCLUSIVE: dropped from the comparison and counted in coverage.inconclusive.
+    # Only a completed exchange may disagree with the model or violate the oracle.
+    def suspect(o):
+        txt = " ".join(str(o.get(k, "")) for k in ("client_err", "dial_err", "server_recv_err", "server_send_err", "setup_error")).lower()
+        return "timeout" in txt or "deadline" in txt
 
-    corr_ok, mism = True, []
-    lines = [coq_case(o) for o in obs]
-    if proof_ok or os.path.exists(os.path.join(vf.COQ, "Props", "C38.vo")):
-        okc, idx, clog = ctx.eval_cases(IMPORTS, CTYPE, lines, AGREE, shard=120)
-        ctx.log("correspondence: %d cases evaluated in Coq, %d mismatches" % (len(lines), len(idx)))
+    can_eval = proof_ok or os.path.exists(os.path.join(vf.COQ, "Props", "C38.vo"))
+    corr_ok = True
+
+    def coq_mismatches(subset, name):
+        nonlocal corr_ok
+        if not can_eval:
+            corr_ok = False
+            return set()
+        okc, idx, clog = ctx.eval_cases(IMPORTS, CTYPE, [coq_case(o) for o in subset], AGREE, shard=120, name=name)
         if not okc:
             corr_ok = False
             detail["cases"] = clog[-2000:]
-        mism = [obs[i] for i in idx]
-    else:
-        corr_ok = False
+        return set(idx)
+
+    mis = coq_mismatches(obs, "Cases")
+    ctx.log("correspondence: %d cases evaluated in Coq, %d mismatches" % (len(obs), len(mis)))
+    orc = {i: oracle(o) for i, o in enumerate(obs)}
+    bad = {i for i in range(len(obs)) if i in mis or orc[i]}
+    retried, attempts = set(), 0
+    todo = sorted(i for i in bad if suspect(obs[i]))
+    while todo and attempts < 3:
+        attempts += 1
+        retried |= set(todo)
+        f = os.path.join(ctx.work, "retry%d.jsonl" % attempts)
+        with open(f, "w") as fh:
+            for i in todo:
+                fh.write(json.dumps(obs[i]) + "\n")
+        rc, out = vf.sh([h, "-cases", f, "-slow", str(2 * 2 ** attempts), "-par", "1", "c06"], timeout=3000, env=vf.GOENV)
+        got = [g for g in (json.loads(l) for l in out.splitlines() if l.startswith("{")) if "client" in g]
+        ctx.log("retry %d of %d timed-out exchange(s) with deadlines x%d: rc=%d" % (attempts, len(todo), 2 * 2 ** attempts, rc))
+        if len(got) != len(todo):
+            break
+        for i, g in zip(todo, got):
+            g["c2s"], g["s2c"] = g.get("c2s") or [], g.get("s2c") or []
+            obs[i] = g
+            orc[i] = oracle(g)
+        m2 = coq_mismatches([obs[i] for i in todo], "Retry%d_" % attempts)
+        for j, i in enumerate(todo):
+            mis.discard(i)
+            if j in m2:
+                mis.add(i)
+        bad = {i for i in range(len(obs)) if i in mis or orc[i]}
+        todo = sorted(i for i in bad if suspect(obs[i]))
+    inconclusive = [obs[i] for i in todo]           # still timing out after the retries
+    keep = [i for i in range(len(obs)) if i not in set(todo)]
+    fails = [(key, what, obs[i]) for i in keep for key, what in orc[i]]
+    mism = [obs[i] for i in keep if i in mis]
+    obs = [obs[i] for i in keep]
+    lines = obs
+    if inconclusive:
+        ctx.notes.append("%d exchange(s) timed out in the harness on every retry and were dropped as inconclusive" % len(inconclusive))
     if mism:
         corr_ok = False
         detail["model_vs_impl_mismatches"] = mism[:5]
@@ -194,6 +245,9 @@ def run(ctx):
         "largest_chunk_seen": max([max(o["c2s"] + o["s2c"] + [0]) for o in obs] or [0]),
         "traces_validated_against_impl": len(lines),
         "model_impl_mismatches": len(mism),
+        "inconclusive": len(inconclusive),
+        "inconclusive_samples": [{k: o.get(k) for k in ("id", "class", "mode", "client", "server", "req_msg", "resp_msg", "client_err", "dial_err", "server_recv_err")} for o in inconclusive[:3]],
+        "timeout_retries": {"cases_retried": len(retried), "rounds": attempts},
     })
     ctx.assumptions += [
         "wire sizes are compared for None/None and for Basic256Sha256 in Sign and SignAndEncrypt (Model.Layout.secured_len); for the other policies the chunk size bound is theorem C38_fits (tied by the C38 sweep)",
